@@ -20,7 +20,7 @@
 //	Ms:m / Mx:m            member m started / stopped (Close returned)
 //	Bs:m:t                 member m began transaction t holding the polled input ids  Bi:m:t:id,id,...
 //	Es:m:t:c|a  Ee:m:t:committed|aborted|err
-//	O:off:id:part          read_committed view of the output topic at the end
+//	O:off:id:part:t        read_committed view of the output topic at the end (t = the transaction that wrote it)
 //	Q
 package main
 
@@ -474,16 +474,20 @@ func runEos(t *testing.T, tk []string) string {
 	}
 	wg.Wait()
 	time.Sleep(time.Second)
+	if committedN.Load() < int64(nrec) {
+		log.Add("ERRunfinished")
+	}
 	type ent struct {
 		off  int64
 		id   string
 		part int32
+		t    string
 	}
 	var out []ent
 	var omu sync.Mutex
 	if !readView(ctx, common, "out", true, func(r *kgo.Record) {
 		omu.Lock()
-		out = append(out, ent{r.Offset, string(r.Key), r.Partition})
+		out = append(out, ent{r.Offset, string(r.Key), r.Partition, string(r.Value)})
 		omu.Unlock()
 	}) {
 		log.Add("ERRreadback")
@@ -495,7 +499,7 @@ func runEos(t *testing.T, tk []string) string {
 		return out[i].off < out[j].off
 	})
 	for _, e := range out {
-		log.Add("O:%d:%s:%d", e.off, e.id, e.part)
+		log.Add("O:%d:%s:%d:%s", e.off, e.id, e.part, e.t)
 	}
 	cancel()
 	synctest.Wait()
